@@ -74,7 +74,7 @@ impl<'a> Ev<'a> {
                                 self.guards.pop();
                                 // … and the rest of the block runs exactly when it does match (the frame lives until the block ends)
                                 if !vs.is_empty() {
-                                    self.guards.push(json!({"k":"if","c":c,"neg":false,"line":line_of(l),"let_else_rest":true}));
+                                    self.guards.push(json!({"k":"if","c":c,"neg":false,"line":line_of(l),"let_else_rest":true,"early_exit":true}));
                                 }
                             }
                             v
